@@ -408,18 +408,19 @@ impl LexiconReader {
             x => (x, self.entries.len()),
         };
         for e in self.entries.iter() {
-            if e.left_id >= self.max_left {
+            // left id of a word is the second index of the connection matrix, right id is the first
+            if e.left_id >= self.max_right {
                 return ctx.err(BuildFailure::InvalidFieldSize {
                     actual: e.left_id as _,
-                    expected: self.max_left as _,
+                    expected: self.max_right as _,
                     field: "left_id",
                 });
             }
 
-            if e.right_id >= self.max_right {
+            if e.right_id >= self.max_left {
                 return ctx.err(BuildFailure::InvalidFieldSize {
                     actual: e.right_id as _,
-                    expected: self.max_right as _,
+                    expected: self.max_left as _,
                     field: "right_id",
                 });
             }
